@@ -463,12 +463,17 @@ func runC17(c *vlib.Check) {
 
 type zzVerifExt uint32
 
+// State is a vendor enumeration of the harness whose Go type name equals the name of a standard tag ("State") while it is
+// registered under its own vendor tag: the explicit registration of the type must win over a lookup by type name.
+type State uint32
+
 // c17Extensions: registration history. An application may register vendor values / tags after the library's own init
 // (ttlv.RegisterEnum, ttlv.RegisterTag). After each such registration every pinned name and number of the extended
 // enumeration must still resolve in both directions, the new value too, and at the end the whole registry must be the
 // pinned one plus exactly the extensions. Runs last: it changes the process-wide registry.
 func c17Extensions(c *vlib.Check, pin *Registry, v func(sig, format string, a ...any)) {
 	const extNum, extName = uint32(0x8000AB01), "ZzVerifExtension"
+	var err error
 	enames := make([]string, 0, len(pin.Enums))
 	for n := range pin.Enums {
 		enames = append(enames, n)
@@ -500,6 +505,37 @@ func c17Extensions(c *vlib.Check, pin *Registry, v func(sig, format string, a ..
 	if pv, _ := vlib.Catch(func() { ttlv.RegisterTag(extTagName, extTag) }); pv != nil {
 		v("extension-register-panic", "RegisterTag panicked: %v", pv)
 	}
+	// a vendor enumeration type registered under its own tag but named like a standard one
+	const vsTag, vsName = 0x54AB02, "ZzVerifVendorState"
+	if pv, _ := vlib.Catch(func() {
+		ttlv.RegisterTag(vsName, vsTag)
+		ttlv.RegisterEnum(vsTag, map[State]string{1: "ZzPrimary", 2: "ZzSecondary"})
+	}); pv != nil {
+		v("extension-register-panic", "registering the vendor enumeration panicked: %v", pv)
+	} else {
+		for _, enc := range []struct {
+			n string
+			m func(any) []byte
+			u func([]byte, any) error
+		}{{"xml", ttlv.MarshalXML, ttlv.UnmarshalXML}, {"json", ttlv.MarshalJSON, ttlv.UnmarshalJSON}} {
+			for num, want := range map[State]string{1: "ZzPrimary", 2: "ZzSecondary"} {
+				c.Eval([]byte(fmt.Sprint("vendor-type", enc.n, num)), true)
+				var doc []byte
+				if pv, _ := vlib.Catch(func() { doc = enc.m(num) }); pv != nil {
+					v("extension-vendor-type:"+enc.n, "writing the vendor enumeration value %d panicked: %v", num, pv)
+					continue
+				}
+				if !strings.Contains(string(doc), vsName) || !strings.Contains(string(doc), want) {
+					v("extension-vendor-type:"+enc.n, "a value of the vendor enumeration type (Go name State, registered under %s) is written as %s; expected tag %s and name %s", vsName, doc, vsName, want)
+					continue
+				}
+				var back State
+				if pv, _ := vlib.Catch(func() { err = enc.u(doc, &back) }); pv != nil || err != nil || back != num {
+					v("extension-vendor-type:"+enc.n, "the vendor enumeration value written as %s reads back as %d (err %v, panic %v)", doc, back, err, pv)
+				}
+			}
+		}
+	}
 	live := LiveRegistry()
 	for name, num := range pin.Tags {
 		if live.Tags[name] != num {
@@ -507,7 +543,7 @@ func c17Extensions(c *vlib.Check, pin *Registry, v func(sig, format string, a ..
 		}
 	}
 	for name, num := range live.Tags {
-		if _, ok := pin.Tags[name]; !ok && !(name == extTagName && num == extTag) {
+		if _, ok := pin.Tags[name]; !ok && !(name == extTagName && num == extTag) && !(name == vsName && num == vsTag) {
 			v("extension-adds-tag", "after the extensions, unexpected tag %s (0x%06X)", name, num)
 		}
 	}
